@@ -612,6 +612,9 @@ def new_params_as_defaults(tree, modname):
             if d is not None:
                 defaults[arg.arg] = d
         stored = {x.id for x in _own_nodes(fn) if isinstance(x, ast.Name) and isinstance(x.ctx, (ast.Store, ast.Del))}
+        now_names = {x.arg for x in pos + a.kwonlyargs} | ({a.vararg.arg} if a.vararg else set()) | ({a.kwarg.arg} if a.kwarg else set())
+        if any(p_ not in now_names for p_ in rp):
+            continue  # a reference parameter is gone: the new name is a renamed parameter that callers do pass, not a hook
         for name, d in defaults.items():
             if name in rp or name in stored:
                 continue
@@ -1101,6 +1104,68 @@ def restore_index_loops(tree, modname):
 # constants moved to a new module: `from pydrobert.speech._consts import A, B` where _consts is a module the reference package
 # does not have and A, B are plain constants there is `A = ...; B = ...` in the importing module.  The assignments are copied
 # in (with the constants they are built from) so that the module reads as it did before the move.
+_LOG_METHODS = {"debug", "info", "warning", "warn", "error", "exception", "critical", "log"}
+
+
+def strip_new_pure_logging(tree, rel):
+    """Logging statements the reference tree does not have, whose arguments are names, constants, attribute reads, `type(x)` and
+    `getattr(x, "name", default)` only, are taken out of the model: formatting is deferred by the logging module, evaluating such
+    arguments cannot raise, consume a stream or a random generator, or modify anything, so the statement cannot change what the
+    program computes.  Every other logging call stays and is inspected like any statement (`data.min()`, `torch.seed()` inside a
+    log line are exactly what the effect rules look for).  Returns the number of statements removed."""
+    if os.environ.get("PDSA_NO_ALPHA"):
+        return 0
+    from . import refdist
+    import hashlib
+    ref = refdist.reference().get(rel)
+    if ref is None:
+        return 0
+    loggers = set()
+    for n in ast.walk(tree):
+        if isinstance(n, ast.Assign) and isinstance(n.value, ast.Call) and isinstance(n.value.func, (ast.Attribute, ast.Name)):
+            fn = n.value.func
+            nm = fn.attr if isinstance(fn, ast.Attribute) else fn.id
+            if nm == "getLogger":
+                loggers |= {t.id for t in n.targets if isinstance(t, ast.Name)}
+
+    def pure(e):
+        if isinstance(e, (ast.Constant, ast.Name)):
+            return True
+        if isinstance(e, ast.Attribute):
+            return pure(e.value)
+        if isinstance(e, (ast.Tuple, ast.List)):
+            return all(pure(x) for x in e.elts)
+        if isinstance(e, ast.Call) and isinstance(e.func, ast.Name) and not e.keywords:
+            if e.func.id == "type" and len(e.args) == 1:
+                return pure(e.args[0])
+            if e.func.id == "getattr" and len(e.args) == 3 and isinstance(e.args[1], ast.Constant):
+                return pure(e.args[0]) and pure(e.args[2])
+        return False
+
+    def is_log(st):
+        if not (isinstance(st, ast.Expr) and isinstance(st.value, ast.Call) and isinstance(st.value.func, ast.Attribute)):
+            return False
+        c = st.value
+        if c.func.attr not in _LOG_METHODS or not (isinstance(c.func.value, ast.Name) and c.func.value.id in loggers):
+            return False
+        if not all(pure(a) for a in c.args) or not all(k.arg in ("exc_info", "stack_info", "stacklevel", "extra") and pure(k.value) for k in c.keywords):
+            return False
+        k = hashlib.sha1(refdist._key(st).encode()).hexdigest()[:12]
+        return k not in ref
+    removed = 0
+    for n in ast.walk(tree):
+        for fld in ("body", "orelse", "finalbody"):
+            lst = getattr(n, fld, None)
+            if isinstance(lst, list) and lst and isinstance(lst[0], ast.stmt):
+                keep = [st for st in lst if not is_log(st)]
+                if len(keep) != len(lst):
+                    removed += len(lst) - len(keep)
+                    if not keep and fld == "body":
+                        keep = [ast.copy_location(ast.Pass(), lst[0])]
+                    setattr(n, fld, keep)
+    return removed
+
+
 def inline_new_module_constants(tree, modname, pkg_dir, pkg="pydrobert.speech"):
     if os.environ.get("PDSA_NO_ALPHA") or not _ref():
         return {}
